@@ -36,12 +36,19 @@ def cases(draw, tier):
                 ins["q"] = qsel
             ins["m"] = draw(st.sampled_from([4, 6, 8, 16, 16]))
         prog.append(ins)
+    if draw(st.integers(0, 2)) == 0:
+        # a state with exactly tied non-zero singular values (Bell-pair like), optionally mixed with the others later
+        prog.append({"op": "tie", "pair": draw(st.integers(0, 20)), "occ": draw(st.lists(st.integers(0, 3), min_size=1, max_size=7)),
+                     "fac": draw(st.sampled_from([1.0, 2.0, -0.5]))})
     if draw(st.booleans()):
         prog.append(draw(chain.mpo_instr(spec)))
     for _ in range(draw(st.integers(0, 3))):
         prog.append(draw(builder_instr()))
     for _ in range(draw(st.integers(1, 3))):
-        prog.append(draw(trunc_instr()))
+        t = draw(trunc_instr())
+        if prog and any(p["op"] == "tie" for p in prog) and draw(st.booleans()):
+            t["a"] = -1 if not any(p["op"] not in ("tie", "rand", "dense", "mpo") for p in prog) else t["a"]
+        prog.append(t)
     return {"model": spec, "prog": prog}
 
 
